@@ -135,6 +135,7 @@ def term_zoo():
     add("AtTimezone", 1, lambda f: T.AtTimezone(f[0], "UTC"))
     add("Index", 0, lambda f: T.Index("idx"))
     add("Parameter", 0, lambda f: T.Parameter("?"))
+    add("Parameter.idx", 0, lambda f: T.Parameter(idx=2))  # positional: the placeholder style is the dialect's
     add("QueryBuilder", 2, lambda f: Query.from_(f[0].table).select(f[0]).where(f[1] == 1))
     add("_SetOperation", 2, lambda f: Query.from_(f[0].table).select(f[0]).union(Query.from_(f[1].table).select(f[1])))
     covered = {"Field", "Star", "Negative", "ValueWrapper", "JSON", "Values", "LiteralValue", "NullValue",
@@ -253,7 +254,9 @@ def stmt_seeds(dialect):
         import datetime
 
         t, u, v = tabs()
+        tz = datetime.timezone(datetime.timedelta(hours=5, minutes=30))
         return (QQ.from_(t).select(True, False, 1.5, None, datetime.date(2020, 1, 2), T.ValueWrapper("a\\b'c")).select(t.a)
+                .select(datetime.time(8, 30, tzinfo=tz), datetime.datetime(2021, 5, 6, 7, 8, 9, tzinfo=tz), T.Parameter(idx=1))
                 .where(t.flag == True).where(t.s == "q\\")  # noqa: E712
                 .where(t.d.isin([False, 2])))
 
@@ -261,9 +264,21 @@ def stmt_seeds(dialect):
         import decimal
 
         t, u, v = tabs()
-        return QQ.update(t).set(t.a, True).set(t.b, False).set("c", decimal.Decimal("1.10")).set("j", {"k": "a\\b"}).where(t.ok == False)  # noqa: E712
+        import datetime
 
-    S.update(sel_lits=sel_lits, upd_lits=upd_lits)
+        tz = datetime.timezone(datetime.timedelta(hours=-3))
+        return (QQ.update(t).set(t.a, True).set(t.b, False).set("c", decimal.Decimal("1.10")).set("j", {"k": "a\\b"})
+                .set("tm", datetime.time(23, 59, 1, tzinfo=tz)).where(t.ok == False))  # noqa: E712
+
+    def sel_shared():
+        # one and the same object at several places of a statement (an aliased criterion selected, filtered on and
+        # compared; an expression selected under an alias and used in WHERE / ORDER BY)
+        t, u, v = tabs()
+        c = (t.a > 1).as_("big")
+        x = (t.b * 2).as_("dbl")
+        return (QQ.from_(t).select(c, FN.Sum(t.b).filter(c).as_("s"), x).where(x > 10).where(c).groupby(c, x).orderby(x))
+
+    S.update(sel_lits=sel_lits, upd_lits=upd_lits, sel_shared=sel_shared)
     S.update(empty=empty, sel_min=sel_min, sel_full=sel_full, sel_rollup=sel_rollup, sel_star=sel_star,
              sel_nested=sel_nested, ins=ins, ins_conf=ins_conf, ins_nothing=ins_nothing, ins_sel=ins_sel, upd=upd,
              upd_join=upd_join, upd_from=upd_from, dele=dele)
